@@ -117,6 +117,7 @@ impl Cur {
         }
     }
     pub fn idle(&self) {
+        set_phase(0);
         unsafe {
             std::ptr::write_volatile(self.ptr.add(4) as *mut u32, 0);
         }
@@ -124,6 +125,7 @@ impl Cur {
 }
 
 pub struct CurSnapshot {
+    pub phase: u32,
     pub sec: u32,
     pub kind: u32,
     pub k: u64,
@@ -141,6 +143,7 @@ pub fn read_cur(path: &Path) -> Option<CurSnapshot> {
     let u64at = |o: usize| u64::from_ne_bytes(raw[o..o + 8].try_into().unwrap());
     let len = (u32at(32) as usize).min(raw.len() - CUR_HDR);
     Some(CurSnapshot {
+        phase: u32at(36),
         sec: u32at(0),
         kind: u32at(4),
         k: u64at(8),
@@ -531,9 +534,29 @@ fn worker_body(prop: &'static dyn Prop, args: WorkerArgs) -> i32 {
 /// cap the address space of a case-running process so that a runaway allocation in the code under
 /// test ends this process (a crash incident) instead of exhausting the machine
 pub fn limit_memory() {
+    // tools under test drop files such as main.sym into the working directory: keep them out of /verif
+    let root = std::env::var("VERIF_ROOT").unwrap_or_else(|_| "/verif".to_string());
+    let cwd = Path::new(&root).join("harness/target/runs/cwd");
+    if std::fs::create_dir_all(&cwd).is_ok() {
+        let _ = std::env::set_current_dir(&cwd);
+    }
     let gib: u64 = std::env::var("VERIF_MEM_GIB").ok().and_then(|s| s.parse().ok()).unwrap_or(6);
     let lim = libc::rlimit { rlim_cur: gib << 30, rlim_max: gib << 30 };
     unsafe {
         libc::setrlimit(libc::RLIMIT_AS, &lim);
+    }
+}
+
+/// a property may mark which part of a case is running (0 = unmarked); the orchestrator reads the
+/// mark of a case that was killed by the watchdog
+pub fn set_phase(p: u32) {
+    let ptr = HEARTBEAT_PTR.load(std::sync::atomic::Ordering::Relaxed);
+    if !ptr.is_null() {
+        unsafe {
+            std::ptr::write_volatile(ptr.add(36) as *mut u32, p);
+        }
+    }
+    if let Ok(f) = std::env::var("VERIF_PHASE_FILE") {
+        let _ = std::fs::write(f, p.to_string());
     }
 }
